@@ -82,6 +82,9 @@ func C16(c *fw.Ctx) {
 				emit(&jj)
 			}
 		}
+		favour = append(favour,
+			"JSIGHT 0.3\nGET /a\n  200 empty\n  200 any\n  201\n    {} // {additionalProperties: \"decimal\"}\n  202 empty\n  202\n    {\"a\": 1}\n",
+			"JSIGHT 0.3\nGET /q\n  Query \"a=1\"\n    [1]\n  200 any\nGET /r\n  204 empty\n  204 any\n  205\n    {} // {additionalProperties: \"decimal\"}\n")
 		for i, d := range favour {
 			j := singleJob(fmt.Sprintf("favour-%d", i), []byte(d), false)
 			j.ID = "favour/" + j.ID
